@@ -506,11 +506,29 @@ def stop_products_tree(rng, res):
         with quiet():
             rl.in_toto_record_start("st", ["m0"], signer=k.signer, use_dsse=dsse)
         T.materialise({n_: v for n_, v in tree.items() if n_ != "m0"}, root)
+        # the material itself may be replaced between start and stop - also by a file with an OLD time stamp (unpacked
+        # from an archive, copied with its times, clamped for reproducibility) or of the same size: the products are what
+        # is on disk at stop, the materials what was there at start
+        m0_change = rng.choice(["none", "rewrite", "old_mtime", "old_mtime", "same_size_old_mtime", "prelim_touched_later"])
+        if m0_change != "none":
+            new = b"materiaL\n" if m0_change == "same_size_old_mtime" else b"replaced between start and stop\n"
+            st0 = os.stat("m0")
+            open("m0", "wb").write(new)
+            tree["m0"] = ("f", new)
+            if "old_mtime" in m0_change:
+                os.utime("m0", (st0.st_atime - 86400, st0.st_mtime - 86400))
+            elif m0_change == "prelim_touched_later":
+                os.utime("m0", (st0.st_atime, st0.st_mtime))
+                for f_ in os.listdir(root):
+                    if f_.endswith(".link-unfinished"):
+                        os.utime(f_, (st0.st_atime + 5, st0.st_mtime + 5))
         try:
             with quiet():
                 rl.in_toto_record_stop("st", plist, signer=k.signer)
             pl = Metadata.load("st.%s.link" % k.keyid[:8]).get_payload()
             got = {"ok": sorted([a, b["sha256"]] for a, b in pl.products.items())}
+            if sorted(pl.materials.items()) != [("m0", {"sha256": sha_of("material\n")})]:
+                got = {"err": "materials of the final link are not those captured at start: %r" % (sorted(pl.materials.items()),)}
         except Exception as e:  # pylint: disable=broad-except
             got = {"err": type(e).__name__}
     finally:
@@ -518,7 +536,7 @@ def stop_products_tree(rng, res):
         shutil.rmtree(root, ignore_errors=True)
     ref = T.reference_record(tree, plist, list(ist.ARTIFACT_EXCLUDE_PATTERNS), True, False, [])
     want = {"ok": sorted([a, b] for a, b in ref[1].items())} if ref[0] == "ok" else {"err": ref[0]}
-    case = {"op": "stop_products_tree", "products": plist, "dsse": dsse, "key": k.kind}
+    case = {"op": "stop_products_tree", "products": plist, "dsse": dsse, "key": k.kind, "material_between_start_and_stop": m0_change}
     res.case(dict(case, n_products=len(got.get("ok") or [])), True, got == want, sample_cap=1)
     res.count("stop_products_tree")
     if got != want:
